@@ -266,6 +266,7 @@ impl Check for C06 {
                 if p.mode == Mode::Paced {
                     let len = p.stream().len();
                     p.paced_cuts = random_paced_cuts(rng, len);
+                    p.paced_gaps_ms = crate::c05::random_paced_gaps(rng);
                 }
                 p
             }));
@@ -285,6 +286,7 @@ impl Check for C06 {
                 if p.mode == Mode::Paced {
                     let len = p.stream().len();
                     p.paced_cuts = random_paced_cuts(rng, len);
+                    p.paced_gaps_ms = crate::c05::random_paced_gaps(rng);
                 }
                 p
             }));
@@ -327,6 +329,7 @@ impl Check for C06 {
                 if p.mode == Mode::Paced {
                     let len = p.stream().len();
                     p.paced_cuts = random_paced_cuts(rng, len);
+                    p.paced_gaps_ms = crate::c05::random_paced_gaps(rng);
                 }
                 p
             }));
